@@ -63,6 +63,8 @@ fn key_of(query: &str, oids: &[u32]) -> String {
 #[derive(Default)]
 struct ConnLog {
     queries: Vec<String>,
+    /// transaction control statements (BEGIN / SAVEPOINT / RELEASE / COMMIT / ROLLBACK), in order
+    txq: Vec<String>,
     parses: Vec<String>,
     msgs: usize,
     kill: Option<tokio::sync::oneshot::Sender<()>>,
@@ -127,10 +129,18 @@ async fn serve(mut s: DuplexStream, ix: usize, srv: Arc<Mutex<Srv>>, mut kill: t
         match tag {
             b'Q' => {
                 let (sql, _) = cstr(&body, 0);
+                let up = sql.trim().to_uppercase();
+                let is_tx = ["BEGIN", "START TRANSACTION", "COMMIT", "ROLLBACK", "SAVEPOINT", "RELEASE"].iter().any(|k| up.starts_with(k));
                 let mode = {
                     let mut g = srv.lock().unwrap();
-                    g.conns[ix].queries.push(sql.clone());
-                    g.plan.pop_front().unwrap_or_else(|| "ok".into())
+                    if is_tx {
+                        // transaction control of the caller: not a recycle query, always succeeds
+                        g.conns[ix].txq.push(up.clone());
+                        "ok".to_string()
+                    } else {
+                        g.conns[ix].queries.push(sql.clone());
+                        g.plan.pop_front().unwrap_or_else(|| "ok".into())
+                    }
                 };
                 let mut out = vec![];
                 match mode.as_str() {
@@ -278,12 +288,25 @@ pub fn run_path(cfg: &Cfg, path: &PathRec<Post>, record: bool) -> (PathResult, V
         let mgr = Manager::from_connect(pgc, DuplexConnect { srv: srv.clone() }, ManagerConfig { recycling_method: method_of(&cfg.method) });
         let pool = Pool::builder(mgr).max_size(cfg.max_size).build().unwrap();
         let mut w = World { pool, srv: srv.clone(), held: BTreeMap::new(), taken: BTreeMap::new(), ids: BTreeMap::new(), last_get: "-".into(), keys: BTreeMap::new(), facts: BTreeMap::new() };
-        let expect_sql: Option<String> = method_of(&cfg.method).query().map(|s| s.to_string());
+        // what each recycling method is documented to send, written down here (not asked of the crate):
+        // Clean = DISCARD ALL without DEALLOCATE ALL / DISCARD PLAN, so that the statement cache stays valid
+        let norm = |sql: &str| -> Vec<String> { sql.split(';').map(|p| p.split_whitespace().collect::<Vec<_>>().join(" ")).filter(|p| !p.is_empty()).collect() };
+        let expect_sql: Option<Vec<String>> = match cfg.method.as_str() {
+            "verified" => Some(vec![]),
+            "clean" => Some(
+                ["CLOSE ALL", "SET SESSION AUTHORIZATION DEFAULT", "RESET ALL", "UNLISTEN *", "SELECT pg_advisory_unlock_all()", "DISCARD TEMP", "DISCARD SEQUENCES"]
+                    .iter()
+                    .map(|s| s.to_string())
+                    .collect(),
+            ),
+            "custom" => Some(norm(CUSTOM_SQL)),
+            _ => None,
+        };
         let mut n = 0usize;
         let ev = |w: &World, n: usize, k: &str, act: &str, probe: i64| -> String {
             let st = w.pool.status();
             let s = w.srv.lock().unwrap();
-            let bad_q = s.conns.iter().flat_map(|c| c.queries.iter()).filter(|q| Some(q.as_str()) != expect_sql.as_deref()).count();
+            let bad_q = s.conns.iter().flat_map(|c| c.queries.iter()).filter(|q| Some(norm(q.as_str())) != expect_sql).count();
             // size() of every client we can look at against the harness's own key set
             let mut bad_size = 0;
             for (id, c) in w.held.iter() {
@@ -364,6 +387,57 @@ pub fn run_path(cfg: &Cfg, path: &PathRec<Post>, record: bool) -> (PathResult, V
                         None => {}
                     }
                 }
+                "TxPrepare" => {
+                    // the same through deadpool_postgres::Transaction (depth 2: a nested transaction / savepoint):
+                    // the wrapper shares the client's statement cache
+                    let key = st.x.get(1).and_then(|v| v.as_str()).unwrap_or("a").to_string();
+                    let depth = st.x.get(2).and_then(|v| v.as_u64()).unwrap_or(1);
+                    let (q, types) = key_parts(&key);
+                    let hit_expected = w.keys.get(&arg_c).map(|k| k.contains(&key)).unwrap_or(false);
+                    let before = { let s = w.srv.lock().unwrap(); (s.conns[(arg_c - 1) as usize].parses.len(), s.conns.iter().map(|c| c.parses.len()).sum::<usize>(), s.conns[(arg_c - 1) as usize].txq.len()) };
+                    let mut outcome: Option<bool> = None;
+                    if let Some(c) = w.held.get_mut(&arg_c) {
+                        let cw: &mut ClientWrapper = &mut *c;
+                        match cw.transaction().await {
+                            Ok(mut tx) => {
+                                let r = if depth >= 2 {
+                                    match tx.transaction().await {
+                                        Ok(inner) => {
+                                            let r = if types.is_empty() { inner.prepare_cached(q).await } else { inner.prepare_typed_cached(q, &types).await };
+                                            let c = inner.commit().await;
+                                            r.map(|s| (s, c.is_ok()))
+                                        }
+                                        Err(e) => Err(e),
+                                    }
+                                } else {
+                                    let r = if types.is_empty() { tx.prepare_cached(q).await } else { tx.prepare_typed_cached(q, &types).await };
+                                    r.map(|s| (s, true))
+                                };
+                                let committed = tx.commit().await.is_ok();
+                                outcome = Some(match r {
+                                    Ok((stmt, inner_ok)) => {
+                                        inner_ok && committed && stmt.params().iter().map(|t| t.oid()).collect::<Vec<_>>() == types.iter().map(|t| t.oid()).collect::<Vec<_>>()
+                                    }
+                                    Err(_) => false,
+                                });
+                            }
+                            Err(_) => outcome = Some(false),
+                        }
+                    }
+                    if let Some(ok) = outcome {
+                        let s = w.srv.lock().unwrap();
+                        let conn = &s.conns[(arg_c - 1) as usize];
+                        let all: usize = s.conns.iter().map(|c| c.parses.len()).sum();
+                        let parses_ok = if hit_expected { all == before.1 } else { conn.parses.len() == before.0 + 1 && conn.parses.last() == Some(&key) && all == before.1 + 1 };
+                        // BEGIN .. COMMIT (and SAVEPOINT .. RELEASE inside) reached the server on this very connection
+                        let tx_ok = conn.txq.len() == before.2 + if depth >= 2 { 4 } else { 2 };
+                        drop(s);
+                        if !(ok && parses_ok && tx_ok) {
+                            w.bump("bad_prepare");
+                        }
+                        w.keys.entry(arg_c).or_default().insert(key);
+                    }
+                }
                 "PrepareJoin" => {
                     let key = st.x.get(1).and_then(|v| v.as_str()).unwrap_or("a").to_string();
                     let (q, types) = key_parts(&key);
@@ -439,18 +513,28 @@ pub fn run_path(cfg: &Cfg, path: &PathRec<Post>, record: bool) -> (PathResult, V
                                 g = cv.wait_timeout(g, Duration::from_millis(50)).unwrap().0;
                             }
                         }
-                        let started = std::sync::Arc::new(std::sync::atomic::AtomicBool::new(false));
-                        let st2 = started.clone();
+                        // the taker publishes its kernel thread id; the step goes on once that thread SLEEPS (it is
+                        // waiting for the registry's mutex) or has finished (code that does not wait) - no timing
+                        let (tid_tx, tid_rx) = std::sync::mpsc::channel::<String>();
                         let taker = std::thread::spawn(move || {
-                            st2.store(true, std::sync::atomic::Ordering::SeqCst);
+                            let me = std::fs::read_link("/proc/thread-self").map(|p| p.to_string_lossy().to_string()).unwrap_or_default();
+                            let _ = tid_tx.send(me);
                             Client::take(c)
                         });
+                        let me = tid_rx.recv_timeout(Duration::from_secs(2)).unwrap_or_default();
                         let t0 = Instant::now();
-                        while !started.load(std::sync::atomic::Ordering::SeqCst) && t0.elapsed() < Duration::from_secs(2) {
-                            std::thread::yield_now();
+                        let mut asleep = 0;
+                        while !taker.is_finished() && asleep < 3 && t0.elapsed() < Duration::from_secs(2) {
+                            let st = std::fs::read_to_string(format!("/proc/{}/stat", me)).unwrap_or_default();
+                            // "pid (comm) S ..." : the state letter follows the closing parenthesis
+                            let state = st.rsplit(')').next().and_then(|r| r.trim_start().chars().next()).unwrap_or('?');
+                            if state == 'S' {
+                                asleep += 1;
+                            } else {
+                                asleep = 0;
+                            }
+                            std::thread::sleep(Duration::from_micros(300));
                         }
-                        // (the taker is now a few instructions away from the registry's lock)
-                        std::thread::sleep(Duration::from_millis(8));
                         {
                             let (m, cv) = &*gate;
                             m.lock().unwrap().1 = true;
